@@ -10,6 +10,7 @@ import Driver.OpsEnc
 import Driver.OpsSeq
 import Driver.OpsJson
 import Driver.OpsStream
+import Driver.OpsOpt
 namespace Mxj.Drv
 
 def dispatch (op : String) (args : List String) : Out :=
@@ -41,6 +42,7 @@ def dispatch (op : String) (args : List String) : Out :=
   | "jdec" => runP opJdec args
   | "getjson" => runP opGetJson args
   | "bread" => runP opBread args
+  | "opts" => runP opOpts args
   | "implonly" => "na"
   | _ => "bad-op"
 
